@@ -127,7 +127,7 @@ def evaluate(spec, wd):
 def shard(shard, nshards, n, tier, seed):
     res = ShardResult()
     with scratch(f"vf-c09-{shard}-") as wd:
-        drive(strategies.form_specs(PROFILE), lambda s: evaluate(s, wd), n, (PROP, seed, shard), res, shrink_calls=30)
+        drive(strategies.forms(PROFILE, grammar=3, templates=1), lambda s: evaluate(s, wd), n, (PROP, seed, shard), res, shrink_calls=30)
     return res
 
 
